@@ -21,6 +21,8 @@ func main() {
 		rep = suiteWrite(*tier, *seed, *model)
 	case "C05":
 		rep = suiteGet(*tier, *seed, *model)
+	case "C10":
+		rep = suiteSen(*tier, *seed, *model)
 	case "C11":
 		rep = suiteEvaluators(*tier, *seed, *model)
 	case "C14":
